@@ -177,39 +177,43 @@ func diffSeek(got, full []pair, rng storage.SeekRange, n int, prefixOnly, cut bo
 	describe := func(kind string) (string, string) {
 		return kind, fmt.Sprintf("got %s want %s", fmtPairs(got), fmtPairs(want))
 	}
-	// Special shape: backwards seek with a start point returning keys that
-	// properly extend Prefix+Start (which sort after the start point).
+	// Special shape 1: a backwards seek with a start point returned keys that
+	// properly extend Prefix+Start (they sort after the start point).
+	stripped, hadExt := got, false
 	if rng.Backwards && len(rng.Start) > 0 {
-		var stripped []pair
+		stripped = nil
 		for _, p := range got {
 			if !extendsStart(p.k, rng) {
 				stripped = append(stripped, p)
 			}
 		}
-		if len(stripped) != len(got) {
-			ok := isPrefixOf(stripped, full)
-			if ok && !prefixOnly && n == 0 {
-				ok = len(stripped) == len(full)
-			}
-			if ok {
-				return describe("backwards-start-extension")
-			}
+		hadExt = len(stripped) != len(got)
+	}
+	if hadExt {
+		ok := isPrefixOf(stripped, full)
+		if ok && !prefixOnly && n == 0 {
+			ok = len(stripped) == len(full)
+		}
+		if ok {
+			return describe("backwards-start-extension")
 		}
 	}
-	// Special shape: the answer was delivered with the prefix trimmed and the
-	// only pairs left out are keys K for which Prefix||K is in the answer too.
+	// Special shape 2: the answer was delivered with the prefix trimmed and the
+	// only pairs left out are keys K for which Prefix||K is in the answer too
+	// (possibly on top of shape 1).
 	if cut {
 		inFull := map[string]bool{}
 		for _, p := range full {
 			inFull[string(p.k)] = true
 		}
+		loose := prefixOnly || (hadExt && n > 0)
 		gi, omitted, ok := 0, 0, true
 		for _, r := range full {
-			if gi < len(got) && bytes.Equal(got[gi].k, r.k) && bytes.Equal(got[gi].v, r.v) {
+			if gi < len(stripped) && bytes.Equal(stripped[gi].k, r.k) && bytes.Equal(stripped[gi].v, r.v) {
 				gi++
 				continue
 			}
-			if gi == len(got) && (prefixOnly || (n > 0 && gi >= n)) {
+			if gi == len(stripped) && (loose || (n > 0 && gi >= n)) {
 				break
 			}
 			if inFull[string(rng.Prefix)+string(r.k)] {
@@ -219,7 +223,10 @@ func diffSeek(got, full []pair, rng storage.SeekRange, n int, prefixOnly, cut bo
 			ok = false
 			break
 		}
-		if ok && gi == len(got) && omitted > 0 {
+		if ok && gi == len(stripped) && omitted > 0 {
+			if hadExt {
+				return describe("backwards-start-extension+cut-omits-key")
+			}
 			return describe("cut-omits-key")
 		}
 	}
